@@ -13,7 +13,15 @@ import OttoVerif.C19.Spec
 namespace OttoVerif.C19.Driver
 open OttoVerif.Proto OttoVerif.C19
 
-def src? (t : String) : Option Src := if t = "-" then some [] else bytes? t
+/-- hex pairs → bytes, linear (Proto.bytes? is quadratic on the long sources of trace requests) -/
+def hexPairs : List Char → List Nat → Option (List Nat)
+  | [], acc => some acc.reverse
+  | [_], _ => none
+  | a :: b :: r, acc => match hexDigit? a, hexDigit? b with
+    | some x, some y => hexPairs r ((x * 16 + y) :: acc)
+    | _, _ => none
+
+def src? (t : String) : Option Src := if t = "-" then some [] else hexPairs t.toList []
 def name? (t : String) : String := if t = "-" then "" else t
 
 def posOut : Option (Nat × Nat) → String
